@@ -377,3 +377,14 @@ def check(ctx):
     check_mutators(ctx)
     check_fresh_or(ctx)
     check_globals(ctx, region)
+    # C12.ONCE (= C11.GATE / C09.ORDER): what is stored for a registered
+    # default is computed from the default at every load (no memo), and
+    # only for names absent from the store
+    from . import c11, c09
+    nf, no = len(ctx.findings), len(ctx.obligations)
+    c11.check_gate(ctx)
+    c09.check_order(ctx)
+    for fd in ctx.findings[nf:]:
+        fd.rule = 'C12.ONCE(' + fd.rule + ')'
+    for o in ctx.obligations[no:]:
+        o['rule'] = 'C12.ONCE(' + o['rule'] + ')'
